@@ -119,6 +119,14 @@ def encryptBytes (P : Prims) (m : Method) (key : Bytes) (objid genno : Nat) (iv 
   | .aes128 => iv ++ P.aesEnc (objectKey P m key objid genno) iv (pkcs7Pad data)
   | .aes256 => iv ++ P.aesEnc key iv (pkcs7Pad data)
 
+/-- ISO 32000-1 7.6.5 (Table 20 StmF / StrF, Table 25 EncryptMetadata), without per-stream `/Crypt`
+    overrides: below V 4 everything is RC4; from V 4 on a string uses the crypt filter StrF, a
+    stream StmF, except that a Metadata stream stays in clear when EncryptMetadata is false. -/
+def specSelect (v4plus encryptMetadata isStream isMetadata : Bool) (stmf strf : Method) : Method :=
+  if !v4plus then .rc4
+  else if isStream then (if isMetadata && !encryptMetadata then .identity else stmf)
+  else strf
+
 mutual
 /-- Encrypt every string of an object (`iv` chooses the initialisation vector per plaintext);
     a stream payload is encrypted unless `skip` says so (cross-reference stream; Metadata with
